@@ -163,7 +163,12 @@ func (h *HttpServer) SetProxyAuthHeaders(headers ...string) {
 // directive, the proxy note when this service's auth depends on a proxy,
 // and either the JSON envelope or the HTML page depending on Accept.
 func (h *HttpServer) writeUnauthorized(w http.ResponseWriter, r *http.Request, reason AuthReason, detail string) {
-	if reason == "" {
+	switch reason {
+	case AuthReasonMissingCredential, AuthReasonInvalidCredential, AuthReasonExpiredCredential,
+		AuthReasonInsufficientScope, AuthReasonProxyRequired, AuthReasonUnauthorized:
+	default:
+		// Empty, or not one of the codes of the closed set (AuthFailure.Reason
+		// is an open string field): the documented fallback.
 		reason = AuthReasonUnauthorized
 	}
 	hint := h.proxyHint()
